@@ -475,8 +475,8 @@ func (v *FnVC) slice(x *ssa.Slice) {
 			hi = fmt.Sprintf("(s_len %s)", s.S)
 		}
 		v.safety("slice-bounds", fmt.Sprintf("(and (<= 0 %s) (<= %s %s) (<= %s (s_len %s)))", lo, lo, hi, hi, s.S), x.Pos())
-		v.setVal(x, fmt.Sprintf("(mk_str (s_base %s) (+ (s_off %s) %s) (- %s %s))", s.S, s.S, lo, hi, lo))
-		q := v.vals[x].S
+		q := v.freshVal(x)
+		v.assume(fmt.Sprintf("(= %s (mk_str (s_base %s) (+ (s_off %s) %s) (- %s %s)))", q, s.S, s.S, lo, hi, lo))
 		v.assume(fmt.Sprintf("(forall ((i Int)) (! (= (str_at %s i) (str_at %s (+ %s i))) :pattern ((str_at %s i))))", q, s.S, lo, q))
 	case *types.Slice:
 		s := v.val(x.X)
@@ -491,8 +491,8 @@ func (v *FnVC) slice(x *ssa.Slice) {
 			max = fmt.Sprintf("(sl_cap %s)", s.S)
 		}
 		v.safety("slice-bounds", fmt.Sprintf("(and (<= 0 %s) (<= %s %s) (<= %s %s) (<= %s (sl_cap %s)))", lo, lo, hi, hi, max, max, s.S), x.Pos())
-		v.setVal(x, fmt.Sprintf("(mk_slice (sl_ref %s) (+ (sl_off %s) %s) (- %s %s) (- %s %s))", s.S, s.S, lo, hi, lo, max, lo))
-		q := v.vals[x].S
+		q := v.freshVal(x)
+		v.assume(fmt.Sprintf("(= %s (mk_slice (sl_ref %s) (+ (sl_off %s) %s) (- %s %s) (- %s %s)))", q, s.S, s.S, lo, hi, lo, max, lo))
 		v.assume(fmt.Sprintf("(forall ((i Int)) (! (= (idx %s i) (idx %s (+ %s i))) :pattern ((idx %s i))))", q, s.S, lo, q))
 	case *types.Pointer: // *array
 		at := u.Elem().Underlying().(*types.Array)
